@@ -15,8 +15,9 @@ import (
 
 // Obs is what can be seen of a node through its exported API, as named canonical strings.
 type Obs struct {
-	names []string
-	vals  map[string]string
+	names   []string
+	vals    map[string]string
+	partial bool // only the state root was recorded
 }
 
 func (o *Obs) set(n, v string) {
@@ -229,4 +230,16 @@ func errClass(err error) string {
 		}
 	}
 	return "err:other"
+}
+
+// observeRootOnly is the cheap observation kept for heights no node is expected to recover at.
+func observeRootOnly(bc *core.Blockchain, height uint32) (o Obs) {
+	o.partial = true
+	sr, err := bc.GetStateRoot(height)
+	if err != nil {
+		o.set("root", "err")
+	} else {
+		o.set("root", sr.Root.StringLE())
+	}
+	return o
 }
